@@ -112,6 +112,17 @@ def run(ctx):
         configs += rows
         if not ctx.cov["samples"]:
             ctx.sample(open(group).readline()[:1200])
+        if ctx.tier != "quick" and not fs:
+            def shift_table(lines):    # the mark-bit table of every space moved into its neighbour
+                import json as _j
+                r = _j.loads(lines[0])
+                for s_ in r["spaces"]:
+                    for x in s_["l"]:
+                        if x["n"] == "VMLocalMarkBitSpec":
+                            x["oh"] -= 1024
+                return [_j.dumps(r, separators=(",", ":"))]
+            sc.binding_demo(ctx, sd, TRACE_SPEC[0], TRACE_SPEC[1], group, "shifted_table",
+                            shift_table, "C24:range-overlap")
     ctx.cov["configurations"] = configs
     ctx.cov["hypothetical_declarations_checked"] = hyp
     ctx.cov["builds"] = ["+".join(fs) or "default" for fs, _ in groups if "+".join(fs) not in omitted]
